@@ -5,13 +5,32 @@
 // ospray
 #include "../../platform.h"
 // stl
+#include <mutex>
 #include <thread>
+#include <vector>
 
 namespace rkcommon {
   namespace tasking {
     namespace detail {
 
       // TaskSys definitions //////////////////////////////////////////////////
+
+      // Tasks scheduled via scheduleDetachedTaskInternal() which may still run.
+      // NOTE: declared before g_ts, thus destroyed after the scheduler has shut
+      //       down (which waits for all tasks)
+      static struct DetachedTasks
+      {
+        std::mutex mutex;
+        std::vector<Task *> tasks;
+
+        ~DetachedTasks()
+        {
+          for (Task *t : tasks) {
+            if (t->GetIsComplete())
+              delete t;
+          }
+        }
+      } g_detached;
 
       static std::unique_ptr<enki::TaskScheduler> g_ts;
 
@@ -41,6 +60,35 @@ namespace rkcommon {
       void waitInternal(Task *task)
       {
         g_ts->WaitforTask(task);
+      }
+
+      void scheduleDetachedTaskInternal(Task *task)
+      {
+        scheduleTaskInternal(task);
+
+        // take the list of outstanding detached tasks; concurrent callers each
+        // work on their own (disjoint) list, so no task is looked at twice
+        std::vector<Task *> tasks;
+        {
+          std::lock_guard<std::mutex> lock(g_detached.mutex);
+          tasks.swap(g_detached.tasks);
+        }
+        tasks.push_back(task);
+
+        // the last access of the scheduler to a task is the decrement of its
+        // running count, thus a task seen as complete can safely be deleted;
+        // done outside of the lock, destructors of tasks may schedule again
+        std::vector<Task *> pending;
+        for (Task *t : tasks) {
+          if (t->GetIsComplete())
+            delete t;
+          else
+            pending.push_back(t);
+        }
+
+        std::lock_guard<std::mutex> lock(g_detached.mutex);
+        g_detached.tasks.insert(
+            g_detached.tasks.end(), pending.begin(), pending.end());
       }
 
     }  // namespace detail
